@@ -104,4 +104,14 @@ example : typeInstr false .CDR [.pair (.pair .int .int) .int] = some (.ok [.int]
 example : Spec.eval true C01.env0 5 (.MAP .CDR) [mPair] = .ok [mPair] := by
   simp [mPair, Spec.eval, Spec.evalMap, Spec.step, Spec.mapOf, Spec.mapOutTy, typeInstr, Typing.step, typeOf, Res.bind]
 
+-- right combs: `UPDATE 3` changes the type of one component, `GET 0` / `UPDATE 0` are typed on every type
+example : typeInstr false (.seq [.PUSH .string (.str [97]), .UPDATEN 3, .GETN 2]) [.pair .int (.pair .nat .unit)]
+    = some (.ok [.pair .string .unit]) := by
+  simp [typeInstr, typeSeq, Typing.step, checkVal, updateNTy, getNTy]
+example : typeInstr false (.seq [.GETN 0, .UNIT, .UPDATEN 0, .UNIT, .UNIT, .PAIRN 3, .UNPAIRN 2]) [.int]
+    = some (.ok [.unit, .pair .unit .unit]) := by
+  simp [typeInstr, typeSeq, Typing.step, updateNTy, getNTy, pairNTy, unpairNTy]
+example : StackTy [.pair (.num .int 1) (.pair (.num .nat 2) .unit)] [.pair .int (.pair .nat .unit)] :=
+  .cons (by simp [HasTy, checkVal]) .nil
+
 end C02
